@@ -1,23 +1,24 @@
 (* C16 - lemmas about Model/Config.v (the tables come from the regenerated Gen/GenIni.v). *)
-From Coq Require Import String Ascii List NArith Bool Permutation Lia Sorted.
-From Pika Require Import Gen.GenIni Model.Config.
+From Coq Require Import String Ascii List NArith Bool Permutation Lia Sorted PeanoNat.
+From Pika Require Import Gen.GenIni Model.Config Proofs.ConfigExpandProofs.
 Import ListNotations.
 Open Scope string_scope.
 
 (* ------------------------------------------------------------------ placeholders *)
 Lemma append_empty_r : forall s : string, s ++ "" = s.
-Proof. induction s; cbn; congruence. Qed.
+Proof. exact app_empty_r. Qed.
 
 (* the syntactic reading of a built-in line `${NAME:default}` / `${NAME}` *)
 Definition placeholder (raw : string) : option (string * string) :=
   match raw with
   | String a (String b body) =>
       if aeqb a c_dollar && aeqb b c_lbrace then
-        match find_unesc c_rbrace body with
-        | Some (inside, EmptyString) =>
-            match find_unesc c_colon inside with
-            | Some (n, d) => Some (n, d)
-            | None => Some (inside, "")
+        match find_next c_rbrace body with
+        | FFound inside EmptyString =>
+            match split_colon inside with
+            | Some (FFound n d) => Some (n, d)
+            | Some (FNone n) => Some (n, "")
+            | None => None
             end
         | _ => None
         end
@@ -25,21 +26,81 @@ Definition placeholder (raw : string) : option (string * string) :=
   | _ => None
   end.
 
+(* a value the expansion leaves alone: no '$' followed by '{' or '[' (and fewer '$' than the model's fuel) *)
+Definition noexp (v : string) : bool := noph v && Nat.ltb (dollars v) 90.
+(* the text between the braces of a built-in line contains no placeholder itself *)
+Definition ph_body_ok (raw : string) : bool :=
+  match raw with String _ (String _ body) => noexp body | _ => false end.
+
+Lemma noexp_inv v : noexp v = true -> noph v = true /\ dollars v < 90.
+Proof. unfold noexp. intros H. apply andb_true_iff in H. destruct H as [H1 H2]. apply Nat.ltb_lt in H2. tauto. Qed.
+
+(* expand_only / expand at a well-formed placeholder line: the line is replaced by the value of the variable
+   (else the default) and THE TEXT BEHIND THE FIRST CHARACTER OF THAT VALUE IS SCANNED AGAIN (rescan_tail) *)
+Lemma placeholder_step env look only Eall Erec raw n d :
+  placeholder raw = Some (n, d) ->
+  (forall t, noexp t = true -> Erec t = XOk t) -> ph_body_ok raw = true ->
+  scan env look only Eall Erec raw =
+  rescan_tail Erec (match getenv env n with Some v => v | None => d end).
+Proof.
+  intros Hp HE Hb. unfold placeholder in Hp. destruct raw as [|a [|b body]]; try discriminate.
+  destruct (aeqb a c_dollar) eqn:Ea; [|discriminate]. destruct (aeqb b c_lbrace) eqn:Eb; [|discriminate].
+  cbn [andb] in Hp. apply aeqb_eq in Ea, Eb. subst a b.
+  unfold scan. cbn [split_at]. rewrite aeqb_refl. unfold at_dollar, step.
+  change (aeqb c_lbrace c_lbrack) with false. rewrite aeqb_refl. unfold brace_body.
+  cbn [ph_body_ok] in Hb. rewrite (HE body Hb). cbn [xbind].
+  destruct (find_next c_rbrace body) as [inside after|]; [|discriminate]. destruct after; [|discriminate].
+  destruct (split_colon inside) as [[n' d'|n']|]; [| |discriminate]; inversion Hp; subst; cbn [xbind];
+    rewrite app_empty_r; exact (xbind_ok _).
+Qed.
+
+Lemma rescan_tail_plain Erec v :
+  (forall t, noph t = true -> dollars t < 90 -> Erec t = XOk t) -> noexp v = true -> rescan_tail Erec v = XOk v.
+Proof.
+  intros HE Hv. apply noexp_inv in Hv. destruct Hv as [H1 H2]. destruct v as [|a u]; [reflexivity|].
+  cbn [rescan_tail]. cbn [noph] in H1. apply andb_true_iff in H1. destruct H1 as [_ H1].
+  rewrite HE; [reflexivity|exact H1|]. cbn [dollars] in H2. lia.
+Qed.
+
 Definition placeholder_ok (e : string * string) : Prop :=
   forall env, match placeholder (snd e) with
-              | Some (n, d) => expand env (snd e) = match getenv env n with Some v => v | None => d end
+              | Some (n, d) =>
+                  (* general: what add_entry stores *)
+                  (forall look, stored_x env look (fst e) (snd e) =
+                                rescan_tail (xp_only env look 99 (fst e)) (match getenv env n with Some v => v | None => d end)) /\
+                  (* a value without placeholder (variable if set, else the default) is what every later read returns *)
+                  (forall v, v = (match getenv env n with Some v => v | None => d end) -> noexp v = true ->
+                             (forall look, stored_x env look (fst e) (snd e) = XOk v) /\
+                             (forall look, xp_all env look xfuel v = XOk v))
               | None => True
               end.
 
+Lemma ph_bodies_ok :
+  forallb (fun e => match placeholder (snd e) with Some _ => ph_body_ok (snd e) | None => true end) builtin_ini = true.
+Proof. vm_compute. reflexivity. Qed.
+
+Lemma stored_placeholder env look key raw n d :
+  placeholder raw = Some (n, d) -> ph_body_ok raw = true ->
+  stored_x env look key raw = rescan_tail (xp_only env look 99 key) (match getenv env n with Some v => v | None => d end).
+Proof.
+  intros Hp Hb. unfold stored_x. change xfuel with (S 99). rewrite xp_only_S.
+  apply placeholder_step; [exact Hp| |exact Hb].
+  intros t Ht. apply noexp_inv in Ht. destruct Ht. apply xp_only_noph; [assumption|lia].
+Qed.
+
 (* every line of the regenerated built-in ini that is a placeholder expands to the environment
-   variable when it is set and to the default otherwise (checked entry by entry on the table) *)
+   variable when it is set and to the default otherwise (entry by entry on the table) *)
 Lemma builtin_placeholders : Forall placeholder_ok builtin_ini.
 Proof.
-  unfold builtin_ini.
-  repeat (apply Forall_cons;
-          [ intro env; cbv -[getenv append]; try exact I;
-            destruct (getenv env _); rewrite ?append_empty_r; reflexivity | ]).
-  apply Forall_nil.
+  apply Forall_forall. intros e He env.
+  pose proof ph_bodies_ok as B. rewrite forallb_forall in B. specialize (B e He).
+  destruct (placeholder (snd e)) as [[n d]|] eqn:Hp; [|exact I].
+  assert (G : forall look, stored_x env look (fst e) (snd e) =
+                rescan_tail (xp_only env look 99 (fst e)) (match getenv env n with Some v => v | None => d end)).
+  { intros look. now apply stored_placeholder. }
+  split; [exact G|]. intros v -> Hv. split.
+  - intros look. rewrite G. apply rescan_tail_plain; [|exact Hv]. intros t H1 H2. apply xp_only_noph; [assumption|lia].
+  - intros look. apply noexp_inv in Hv. destruct Hv. apply xp_all_noph; [assumption|unfold xfuel; lia].
 Qed.
 
 Lemma assoc_in : forall k l v, assoc k l = Some v -> In (k, v) l.
@@ -50,14 +111,19 @@ Proof.
   - right. now apply IH.
 Qed.
 
+(* the environment variable n is unset or holds a value without placeholder, and so does the default *)
+Definition env_plain (env : list (string * string)) (n d : string) : Prop :=
+  noexp (match getenv env n with Some v => v | None => d end) = true.
+
 Lemma builtin_env_default :
   forall env key raw n d,
-    assoc key builtin_ini = Some raw -> placeholder raw = Some (n, d) ->
+    assoc key builtin_ini = Some raw -> placeholder raw = Some (n, d) -> env_plain env n d ->
     builtin env key = match getenv env n with Some v => v | None => d end.
 Proof.
-  intros env key raw n d Hk Hp. unfold builtin. rewrite Hk.
+  intros env key raw n d Hk Hp Hv. unfold builtin, builtin_x. rewrite Hk.
   pose proof builtin_placeholders as F. rewrite Forall_forall in F.
-  specialize (F (key, raw) (assoc_in _ _ _ Hk) env). cbn in F. now rewrite Hp in F.
+  specialize (F (key, raw) (assoc_in _ _ _ Hk) env). cbn [fst snd] in F. rewrite Hp in F.
+  destruct F as [_ F]. destruct (F _ eq_refl Hv) as [F1 F2]. rewrite F1. cbn [xbind]. rewrite F2. reflexivity.
 Qed.
 
 (* ------------------------------------------------------------------ precedence *)
@@ -77,7 +143,7 @@ Definition deciding (env : list (string * string)) (p : parsed) (cfgmap : list (
 Lemma resolve_precedence :
   forall opt key, In (opt, key) opt_key ->
   forall raw n d, assoc key builtin_ini = Some raw -> placeholder raw = Some (n, d) ->
-  forall env p cfgmap,
+  forall env p cfgmap, env_plain env n d ->
     resolve env p cfgmap opt key =
     match value_of opt p with
     | Some v => v                                              (* command line (or prepended) *)
@@ -90,7 +156,7 @@ Lemma resolve_precedence :
               end
     end.
 Proof.
-  intros opt key _ raw n d Hk Hp env p cfgmap. unfold resolve.
+  intros opt key _ raw n d Hk Hp env p cfgmap Hv. unfold resolve.
   destruct (value_of opt p); [reflexivity|].
   destruct (assoc key cfgmap); [reflexivity|].
   now apply builtin_env_default with (raw := raw).
@@ -224,9 +290,20 @@ Proof.
 Qed.
 
 Lemma unregistered_rejected :
-  forall ex arg0 pco args p, p_unreg p <> [] -> app_argv ex arg0 pco args p = inr RLateUnknown.
+  forall ex arg0 pco args p, p_unreg p <> [] ->
+    exists e, app_argv ex arg0 pco args p = inr e /\
+              (e = RLateUnknown \/ e = RExpandLoop \/ e = RExpandCrash).
 Proof.
-  intros ex arg0 pco args p H. unfold app_argv. destruct (p_unreg p); [congruence|reflexivity].
+  intros ex arg0 pco args p H. unfold app_argv.
+  destruct (cmd_line_status ex arg0 args p); [|eexists; split; [reflexivity|tauto]..].
+  destruct (p_unreg p); [congruence|]. eexists; split; [reflexivity|tauto].
+Qed.
+
+Lemma unregistered_not_started env p cfg m ok f ex arg0 pco args :
+  p_unreg p <> [] -> forall c, handle env p cfg m ok f (fun _ => app_argv ex arg0 pco args p) <> Started c.
+Proof.
+  intros H. destruct (unregistered_rejected ex arg0 pco args p H) as (e & E & _).
+  exact (argv_rejected_not_started env p cfg m ok f (fun _ => app_argv ex arg0 pco args p) e E).
 Qed.
 
 (* an unknown --name[=value] token (not an abbreviation of a registered option) that the parser
@@ -754,12 +831,14 @@ Proof.
   intros H. unfold trim. apply nodl_rev_str; [|reflexivity]. apply nodl_ltrim. apply nodl_rev_str; [|reflexivity].
   now apply nodl_ltrim.
 Qed.
-(* get_config_entry's expansion leaves a value without a dollar sign alone *)
-Lemma expand_entry_nodl env look : forall s, nodl s = true -> expand_entry env look s = s.
+(* add_entry's and get_config_entry's expansions leave a value without a dollar sign alone *)
+Lemma nodl_contains : forall s, nodl s = true -> contains c_dollar s = false.
 Proof.
   induction s as [|c s IH]; intros H; [reflexivity|]. cbn [nodl] in H. apply andb_true_iff in H. destruct H as [Hc Hs].
-  apply negb_true_iff in Hc. cbn [expand_entry]. rewrite Hc, IH by assumption. reflexivity.
+  apply negb_true_iff in Hc. cbn [contains]. rewrite aeqb_sym, Hc. now apply IH.
 Qed.
+Lemma read_x_nodl env look k s : nodl s = true -> read_x env look k s = XOk s.
+Proof. intros H. apply read_x_no_dollar. now apply nodl_contains. Qed.
 
 Lemma esc_dq_id s : contains c_dq s = false -> esc_dq s = s.
 Proof.
@@ -1135,9 +1214,10 @@ Qed.
 Lemma run_started_argv env m arg0 args c : run env m arg0 args = Started c ->
   exists pre p, tok_prepend (builtin env "pika.commandline.prepend_options") = Some pre /\
     parse_tokens (S (length (pre ++ args))) (pre ++ args) false p_empty = inl p /\
-    exists look, app_argv (expand_entry env look) arg0 (builtin env "pika.commandline.prepend_options") args p = inl (Some (c_argv c)).
+    exists look, app_argv (read_x env look) arg0 (builtin env "pika.commandline.prepend_options") args p = inl (Some (c_argv c)).
 Proof.
   unfold run. intros H.
+  destruct (builtin_status env); try discriminate.
   destruct (tok_prepend _) as [pre|]; [|discriminate].
   destruct (parse_tokens _ _ false p_empty) as [p|[|]] eqn:Ep; try discriminate.
   destruct (dup_in [] (p_opts p)); [discriminate|].
@@ -1163,8 +1243,9 @@ Proof.
   assert (I : pinv p).
   { eapply parse_inv; [exact E2| |exact pinv_empty]. apply Forall_forall. rewrite forallb_forall in Hs. exact Hs. }
   destruct I as (Ipos & Isafe & Inamed).
-  unfold app_argv in E3. destruct (p_unreg p) eqn:Eu; [|discriminate]. split; [reflexivity|].
-  destruct (negb (late_line_ok _ _ _)); [discriminate|].
+  unfold app_argv in E3. destruct (cmd_line_status _ _ _ _); try discriminate.
+  destruct (p_unreg p) eqn:Eu; [|discriminate]. split; [reflexivity|].
+  destruct (negb (late_line_ok _ _ _ _)); [discriminate|].
   pose proof (vm_names_srt p Inamed) as S.
   assert (Ipos_s : Forall (fun v => all_safe v = true) (p_pos p)).
   { eapply Forall_impl; [|exact Ipos]. intros v. apply arg_safe_all. }
@@ -1173,7 +1254,7 @@ Proof.
   assert (ND : nodl (trim (encode_and_enquote arg0 ++ " " ++ reconstruct p ++ " ")) = true).
   { apply nodl_trim. rewrite enc_embed by (now apply arg_safe_all). rewrite !nodl_app, nodl_embed by (now apply arg_safe_all).
     rewrite nodl_reconstruct; [reflexivity|apply srt_nodl; exact S|exact Isafe|exact Ipos_s]. }
-  rewrite (expand_entry_nodl env look _ ND) in E3.
+  rewrite (read_x_nodl env look _ _ ND) in E3. cbn [xstr] in E3.
   rewrite (split_rebuilt_line arg0 p Ha (srt_plain _ S) Isafe Ipos_s) in E3.
   inversion E3 as [E]. cbn [tl]. rewrite af_names by (assumption || apply S).
   destruct (p_pos p) as [|v0 l0] eqn:Ep.
@@ -1325,18 +1406,20 @@ Definition threads_text (env : list (string * string)) (p : parsed) (cfg : list 
   end.
 
 Lemma threads_text_resolve env p cfg :
+  env_plain env "PIKA_THREADS" "cores" ->
   resolve env p cfg "pika:threads" "pika.os_threads" = threads_text env p cfg.
 Proof.
-  unfold threads_text.
+  intros Hv. unfold threads_text.
   apply (resolve_precedence "pika:threads" "pika.os_threads") with (raw := "${PIKA_THREADS:cores}");
-    [vm_compute; tauto| |]; vm_compute; reflexivity.
+    [vm_compute; tauto| | |exact Hv]; vm_compute; reflexivity.
 Qed.
 
 Lemma threads_keywords_precedence_sources env p cfg m ok f a c :
   handle env p cfg m ok f a = Started c ->
   assoc "pika.force_min_os_threads" cfg = None ->
+  env_plain env "PIKA_THREADS" "cores" ->
   exists it ic, eff_counts env p cfg m = Some (it, ic) /\
     kw_count it ic (threads_text env p cfg) = Some (c_threads c).
 Proof.
-  intros H Hm. rewrite <- threads_text_resolve. exact (threads_keywords_precedence env p cfg m ok f a c H Hm).
+  intros H Hm Hv. rewrite <- threads_text_resolve by exact Hv. exact (threads_keywords_precedence env p cfg m ok f a c H Hm).
 Qed.
